@@ -439,7 +439,9 @@ func prepareCall(fr *frame, call *ssa.CallCommon) (fn value, args []value) {
 		if recv.t == nil {
 			panic(rtErr("runtime error: invalid memory address or nil pointer dereference (method on nil interface)"))
 		}
-		if f := lookupMethod(fr.i, recv.t, call.Method); f == nil {
+		if _, isRT := recv.v.(rtype); isRT {
+			fn = &rtypeMethod{call.Method.Name()}
+		} else if f := lookupMethod(fr.i, recv.t, call.Method); f == nil {
 			panic(engineErr{fmt.Sprintf("method set for dynamic type %v does not contain %s", recv.t, call.Method)})
 		} else {
 			fn = f
@@ -463,6 +465,10 @@ func call(i *interpreter, caller *frame, callpos token.Pos, fn value, args []val
 		return callSSA(i, caller, callpos, fn.Fn, args, fn.Env)
 	case *ssa.Builtin:
 		return callBuiltin(caller, callpos, fn, args)
+	case *boundMethod:
+		return callSSA(i, caller, callpos, fn.fn, append([]value{fn.recv}, args...), nil)
+	case *rtypeMethod:
+		return callRtypeMethod(caller, fn, args)
 	}
 	panic(engineErr{fmt.Sprintf("cannot call %T", fn)})
 }
